@@ -100,6 +100,7 @@ type ipamMon struct {
 	delFailed map[string]bool // ... whose delete call failed
 	writeLost map[string]bool // ... that no stored record named when a write of the Node record failed by injection
 	everBound map[string]bool // "ip|ns/name": the record has bound the address to a pod of that name at some point
+	vswFull   map[string]bool // vSwitches the cloud reported exhausted to the controller (pool cache TTL 10 min: for the whole history)
 	owedKnow  map[string]bool // interfaces the controller created whose record write was refused: until its next successful
 	// listing of the node's interfaces it owes itself a full sync and may not plan on the stored record alone
 	cl        client.Client
@@ -481,6 +482,13 @@ func (m *ipamMon) OnInvoke(c *cloudsim.CtrlCloud, call *cloudsim.CCall) {
 		if call.N4 > m.cfg.V4Per || call.N6 > m.cfg.V6Per && m.cfg.V6 {
 			m.violate("C08", "C08.create-over-limit", "addresses", fmt.Sprintf("CreateNetworkInterface with %d IPv4 / %d IPv6, per-interface limits %d / %d", call.N4, call.N6, m.cfg.V4Per, m.cfg.V6Per))
 		}
+		if m.vswFull[call.VSW] {
+			for id, v := range c.VSWs {
+				if id != call.VSW && !m.vswFull[id] && v.Free > 0 {
+					m.violate("C17", "C17.exhausted-vswitch-chosen-again", "controller/create", fmt.Sprintf("CreateNetworkInterface names %s, which the cloud reported exhausted earlier in this history (cache TTL 10 min), although %s has %d free addresses", call.VSW, id, v.Free))
+				}
+			}
+		}
 		attached := 0
 		for _, e := range snap.ENIs {
 			if !e.Deleted && e.InstanceID == "i-1" && e.Type != "Member" && e.Status != "Available" {
@@ -562,6 +570,19 @@ func (m *ipamMon) OnReturn(c *cloudsim.CtrlCloud, call *cloudsim.CCall) {
 	m.mu.Lock()
 	defer m.mu.Unlock()
 	m.ev("cloud< %s eni=%s res=%v err=%q", call.API, call.ENI, call.Result, shorten(call.Err, 80))
+	if strings.Contains(call.Err, "IpNotEnough") && (call.API == "CreateNetworkInterface" || call.API == "AssignPrivateIpAddresses" || call.API == "AssignIpv6Addresses") {
+		vsw := call.VSW
+		if e, ok := c.ENIs[call.ENI]; ok && vsw == "" {
+			vsw = e.VSW
+		}
+		if vsw != "" {
+			if m.vswFull == nil {
+				m.vswFull = map[string]bool{}
+			}
+			m.vswFull[vsw] = true
+			m.ev("vSwitch %s reported exhausted", vsw)
+		}
+	}
 	switch call.API {
 	case "CreateNetworkInterface":
 		m.createInf--
